@@ -15,10 +15,15 @@ package main
 
 import (
 	"context"
+	"bufio"
+	"bytes"
 	"errors"
 	"fmt"
 	"io"
+	"math"
+	"net"
 	"os"
+	"os/exec"
 	"sort"
 	"strconv"
 	"strings"
@@ -29,9 +34,12 @@ import (
 	"go.uber.org/zap"
 	"google.golang.org/grpc"
 	"google.golang.org/grpc/codes"
+	"google.golang.org/grpc/credentials/insecure"
 	"google.golang.org/grpc/status"
+	"google.golang.org/grpc/test/bufconn"
 	"google.golang.org/protobuf/types/known/timestamppb"
 
+	"github.com/ozontech/seq-db/conf"
 	"github.com/ozontech/seq-db/consts"
 	"github.com/ozontech/seq-db/disk"
 	"github.com/ozontech/seq-db/logger"
@@ -1466,6 +1474,130 @@ func genFCase(r *vh.RNG) fcase {
 	return c
 }
 
+// ---- wire level: the real gRPC server (initServer: recover / log / pool interceptors) over a bufconn listener and a
+// real gRPC client.  Runs in a child process: if a panic escaped the interceptors the process would die, and that
+// must be an observation, not the end of the check.
+
+func wireAnswer(c tcase) (req, impl string) {
+	useShuffle(c.shuf)
+	w0, si, _ := buildCase(c)
+	srv := proxyapi.VerifNewGRPCServerC16(si, 20*time.Second)
+	lis := bufconn.Listen(1 << 20)
+	go func() { _ = srv.Serve(lis) }()
+	defer srv.Stop()
+	conn, err := grpc.NewClient("passthrough:///bufnet", grpc.WithContextDialer(func(ctx context.Context, _ string) (net.Conn, error) { return lis.DialContext(ctx) }),
+		grpc.WithTransportCredentials(insecure.NewCredentials()))
+	if err != nil {
+		return "", "dial-error " + err.Error()
+	}
+	defer conn.Close()
+	cl := seqproxyapi.NewSeqProxyApiClient(conn)
+	order := seqproxyapi.Order_ORDER_DESC
+	if c.rev {
+		order = seqproxyapi.Order_ORDER_ASC
+	}
+	q := &seqproxyapi.SearchQuery{Query: "message:x", From: timestamppb.New(time.UnixMilli(0)), To: timestamppb.New(time.UnixMilli(1 << 40))}
+	ctx, cancel := context.WithTimeout(context.Background(), 30*time.Second)
+	defer cancel()
+	render := func(docs []*seqproxyapi.Document, total int64, perr *seqproxyapi.Error, partial bool, err error) string {
+		switch {
+		case err != nil:
+			switch status.Code(err) {
+			case codes.InvalidArgument:
+				return "err invalid-argument"
+			case codes.Internal:
+				return "err internal"
+			}
+			return "err " + status.Code(err).String()
+		case perr != nil && perr.Code == seqproxyapi.ErrorCode_ERROR_CODE_TOO_MANY_FRACTIONS_HIT && len(docs) == 0:
+			return "ok refused tmf"
+		}
+		var ids []id2
+		var toks []int
+		for _, d := range docs {
+			id, perr := seq.FromString(d.Id)
+			if perr != nil {
+				return "bad-id " + d.Id
+			}
+			ids = append(ids, id2{uint64(id.MID), uint64(id.RID)})
+			toks = append(toks, tokenOf(d.Data))
+		}
+		return fmt.Sprintf("ok partial=%s total=%d ids=%s docs=%s", vh.B(partial), total, fmtIDs(ids), vh.JoinInts(toks))
+	}
+	resp, err := cl.Search(ctx, &seqproxyapi.SearchRequest{Query: q, Size: int64(c.size), Offset: int64(c.off), Order: order})
+	impl = render(resp.GetDocs(), resp.GetTotal(), resp.GetError(), resp.GetPartialResponse(), err)
+	// ComplexSearch must tell the client the same
+	w0.mu.Lock()
+	w := w0.snapshot()
+	w0.mu.Unlock()
+	ord, behav, _ := fetchTrace(w)
+	wh, wc := normWinner(c.hot, c.wh), normWinner(c.cold, c.wc)
+	req = fmt.Sprintf("wire %s %s %d %d %s %d %s %s", fmtTier(c.hot, arrivalOrder(c.hot, wh)), fmtTier(c.cold, arrivalOrder(c.cold, wc)),
+		c.off, c.size, vh.B(c.rev), c.hint, vh.JoinInts(ord), vh.JoinStrs(behav, "|"))
+	_, si2, _ := buildCase(c)
+	srv2 := proxyapi.VerifNewGRPCServerC16(si2, 20*time.Second)
+	lis2 := bufconn.Listen(1 << 20)
+	go func() { _ = srv2.Serve(lis2) }()
+	defer srv2.Stop()
+	conn2, err := grpc.NewClient("passthrough:///bufnet", grpc.WithContextDialer(func(ctx context.Context, _ string) (net.Conn, error) { return lis2.DialContext(ctx) }),
+		grpc.WithTransportCredentials(insecure.NewCredentials()))
+	if err == nil {
+		defer conn2.Close()
+		cresp, cerr := seqproxyapi.NewSeqProxyApiClient(conn2).ComplexSearch(ctx, &seqproxyapi.ComplexSearchRequest{Query: q, Size: int64(c.size), Offset: int64(c.off), Order: order})
+		if cimpl := render(cresp.GetDocs(), cresp.GetTotal(), cresp.GetError(), cresp.GetPartialResponse(), cerr); cimpl != impl {
+			impl = "complexsearch-differs search=[" + impl + "] complex=[" + cimpl + "]"
+		}
+	}
+	return req, impl
+}
+
+func wireChild() {
+	logger.SetLevel(zap.FatalLevel)
+	sc := bufio.NewScanner(os.Stdin)
+	sc.Buffer(make([]byte, 1<<20), 1<<24)
+	out := bufio.NewWriter(os.Stdout)
+	defer out.Flush()
+	for sc.Scan() {
+		c, err := parseCase(sc.Text())
+		if err != nil {
+			continue
+		}
+		req, impl := wireAnswer(c)
+		fmt.Fprintf(out, "%s\t%s\n", req, impl)
+		out.Flush()
+	}
+}
+
+// runWire sends the cases to a child process; died = the child did not answer every case
+func runWire(cases []tcase) (reqs, impls []string, died bool, detail string) {
+	var in bytes.Buffer
+	for _, c := range cases {
+		in.WriteString(c.String() + "\n")
+	}
+	ctx, cancel := context.WithTimeout(context.Background(), 180*time.Second)
+	defer cancel()
+	cmd := exec.CommandContext(ctx, os.Args[0])
+	cmd.Env = append(os.Environ(), "C16_WIRE_CHILD=1")
+	cmd.Stdin = &in
+	var errb bytes.Buffer
+	cmd.Stderr = &errb
+	outb, err := cmd.Output()
+	for _, l := range strings.Split(strings.TrimSpace(string(outb)), "\n") {
+		p := strings.SplitN(l, "\t", 2)
+		if len(p) == 2 {
+			reqs, impls = append(reqs, p[0]), append(impls, p[1])
+		}
+	}
+	if err != nil || len(reqs) != len(cases) {
+		tail := errb.String()
+		if len(tail) > 600 {
+			tail = tail[len(tail)-600:]
+		}
+		return reqs, impls, true, fmt.Sprintf("child answered %d of %d cases: %v; stderr tail: %s", len(reqs), len(cases), err, tail)
+	}
+	return reqs, impls, false, ""
+}
+
 // sharedIDs: does some ID occur in the answers of two different shards of the same tier?
 func sharedIDs(t [][]call) bool {
 	seen := map[id2]int{}
@@ -1588,6 +1720,9 @@ func expectedTop(lists [][]id2, rev bool, off, size int) []id2 {
 }
 
 func faultFree(c tcase) bool {
+	if uint64(c.off)+uint64(c.size) >= 1<<63 {
+		return false // Offset+Size wraps: the request fails with an (honest) error - c16_limit_wrap
+	}
 	saved := curShuf
 	curShuf = c.shuf
 	defer func() { curShuf = saved }()
@@ -1910,6 +2045,15 @@ func smallCases(r *vh.RNG, thorough bool) []tcase {
 		res = append(res, tcase{hot: [][]call{{{kind: 'r', code: 'n', total: tt[0], ids: dupIDs}}, {{kind: 'r', code: 'n', total: tt[1], ids: dupIDs}}},
 			size: 5, wh: -1, wc: -1, fb: map[string]string{}})
 	}
+	// Offset+Size at and beyond the int range: the sum wraps for MaxInt64+1 ... (MergeQPRs panics), not for 2^62+...
+	for _, off := range []int{math.MaxInt64, math.MaxInt64 - 1, 1 << 62} {
+		for _, size := range []int{1, 2, math.MaxInt32} {
+			okS := []call{{kind: 'r', code: 'n', total: 2, ids: []id2{{9, 1}, {5, 1}}}}
+			for _, hot := range [][][]call{{okS}, {okS, {{kind: 'f'}}}, {{{kind: 'f'}}}, {{{kind: 'w'}}, okS}} {
+				res = append(res, tcase{hot: hot, cold: [][]call{{{kind: 'r', code: 'n', total: 1, ids: []id2{{7, 1}}}}}, off: off, size: size, fetch: true, wh: 0, wc: -1, fb: map[string]string{}})
+			}
+		}
+	}
 	// ShuffleReplicas=true: one or two shards, 2-3 replicas holding their own documents, every order, every
 	// fail / lagging / answering script: a wrong source shows up as a wrong attribution and in the fetched bytes
 	for _, n := range []int{2, 3} {
@@ -1962,6 +2106,10 @@ func smallCases(r *vh.RNG, thorough bool) []tcase {
 // ---------------------------------------------------------------- main
 
 func main() {
+	if os.Getenv("C16_WIRE_CHILD") == "1" {
+		wireChild()
+		return
+	}
 	o := vh.ParseFlags()
 	logger.SetLevel(zap.FatalLevel)
 	rep := vh.NewReport("C16", o)
@@ -2002,7 +2150,7 @@ func main() {
 			sharedX := sharedIDs(c.hot) || sharedIDs(c.cold)
 			if unkX <= 1 && !(sharedX && len(wx.fetchReq) > 0) && wx.timeouts == 0 {
 				wh, wc := normWinner(c.hot, c.wh), normWinner(c.cold, c.wc)
-				chExport.Add(fmt.Sprintf("export %s %s %d %d %d %s %s", fmtTier(c.hot, arrivalOrder(c.hot, wh)), fmtTier(c.cold, arrivalOrder(c.cold, wc)),
+				chExport.Add(fmt.Sprintf("export %d %s %s %d %d %d %s %s", conf.MaxRequestedDocuments, fmtTier(c.hot, arrivalOrder(c.hot, wh)), fmtTier(c.cold, arrivalOrder(c.cold, wc)),
 					c.off, c.size, c.hint, vh.JoinInts(orderX), vh.JoinStrs(behavX, "|")), implX, !faultFree(c), "answer="+strings.Join(strings.Fields(implX)[:min(2, len(strings.Fields(implX)))], "-"))
 			}
 			if endedOK {
@@ -2085,6 +2233,36 @@ func main() {
 	rep.AddOracle(orc)
 
 	useShuffle(nil)
+
+	// ---- wire level (child process): Offset+Size at the int boundary and a sample of ordinary cases
+	{
+		chWire := vh.NewChannel("wire", "real gRPC server of the proxy (initServer: recover / log / pool interceptors) + real gRPC client over bufconn, Search and ComplexSearch, in a child process, vs SV.ProxyRead.api with a panic rendered as codes.Internal (the recover interceptor): Offset in {MaxInt64, MaxInt64-1, 2^62} x Size in {1, 2, MaxInt32} over answering / partial / failing / wants-old-data topologies, plus a seeded sample; non-trivial = the request does not succeed completely")
+		var wcases []tcase
+		for _, c := range cases {
+			big := c.off >= 1<<62
+			if big || (len(wcases) < o.Pick(150, 600) && !sharedIDs(c.hot) && !sharedIDs(c.cold) && len(c.shuf) == 0) {
+				wcases = append(wcases, c)
+			}
+		}
+		reqs, impls, died, detail := runWire(wcases)
+		for i := range reqs {
+			if strings.Contains(reqs[i], "999.9") { // unrequested documents: the map order may decide, as in the api channel
+				continue
+			}
+			chWire.Add(reqs[i], impls[i], !strings.HasPrefix(impls[i], "ok partial=0"), "answer="+strings.Join(strings.Fields(impls[i])[:min(2, len(strings.Fields(impls[i])))], "-"))
+			if strings.HasPrefix(impls[i], "complexsearch-differs") {
+				rep.Violate(vh.Violation{Site: "proxyapi/grpc_complex_search.go:ComplexSearch", Class: "search-complexsearch-differ", What: impls[i], Replay: []string{wcases[i].String()}})
+			}
+		}
+		if died {
+			var last []string
+			if len(reqs) < len(wcases) {
+				last = []string{wcases[len(reqs)].String()}
+			}
+			rep.Violate(vh.Violation{Site: "proxyapi/grpc_server.go:initServer", Class: "process-died", What: "the proxy process did not survive a search request sent over gRPC: " + detail, Replay: last})
+		}
+		rep.AddChannel(chWire, o.Driver)
+	}
 
 	// ---- Fetch API
 	chFetch := vh.NewChannel("fetchapi", "real proxyapi Fetch handler (Ingestor.Documents: expandIDsBySources, FetchDocsStream, uniqueIDIterator; Id taken from the document) vs SV.ProxyApi.apiFetch on the recorded store deliveries; non-trivial = a store misbehaved or a document is missing")
